@@ -229,4 +229,22 @@ CLAIMED = {
                      "replayed; library index tables validated against the spec with TLC",
         "design_ref": "DESIGN.md section 4 (C16)",
     },
+    "C04": {
+        "text": "DirectPtychoStream.tla models the streaming of bright-field pixels in consecutive batches with "
+                "single-pass kernels (ssb, prlx, icom) and two-pass kernels (obf, mf: power accumulated over "
+                "ALL pixels before the second pass) keeping results symbolically; TLC checks "
+                "FunctionOfInputs, EachPixelOnce and Recombine for every sub-mask, kernel and batch size and "
+                "rejects a per-batch normaliser; it also computes the exact rolled mean-subtracted integer "
+                "images of the parallax oracle. The replayer runs reconstruct() for every kernel and alias, "
+                "upsampling 1..3, aberration / rotation / filter variants and EVERY batch size 1..num_bf "
+                "(and larger), a repeated call, linearity on two integer stacks, recombination of "
+                "complementary sub-masks weighted by aperture weights, zero-aberration parallax = sum of "
+                "mean-subtracted images / W, and defocused parallax = TLC's rolled images.",
+        "note": "Trusted: TLC; aperture weights W from the library's evaluate_probe; float32 tolerances 2e-5 "
+                "(batch invariance) / 2e-4 (linearity, recombination) relative. Nine BF pixels, scan shapes up "
+                "to 9x8; exact parallax oracle at rotation angle 0.",
+        "technique": "TLA+ streaming model checked by TLC + exact integer oracle; replayed into the "
+                     "implementation over every batch schedule",
+        "design_ref": "DESIGN.md section 4 (C04)",
+    },
 }
